@@ -48,6 +48,10 @@ def decodeSuffix : PyVal → Option Suffix
   | .list [.str "z"] => some .z
   | .list [.str "plus", h, m] => do pure (.plus (← nat? h) (← nat? m))
   | .list [.str "minus", h, m] => do pure (.minus (← nat? h) (← nat? m))
+  | .list [.str "plusb", h, m] => do pure (.plusBasic (← nat? h) (← nat? m))
+  | .list [.str "minusb", h, m] => do pure (.minusBasic (← nat? h) (← nat? m))
+  | .list [.str "plush", h] => do pure (.plusHour (← nat? h))
+  | .list [.str "minush", h] => do pure (.minusHour (← nat? h))
   | _ => none
 
 def sepChar? (s : String) : Option Char :=
@@ -65,6 +69,8 @@ def handle (op : String) (args : List PyVal) : Option (List PyVal) :=
   | "parse", [i] => do
     let i ← decodeInput i
     pure [encodeOutcome (parseIso i)]
+  | "parseskel", [.str t] => pure [encodeOutcome (parseTextSkel t.toList)]
+  | "tailread", [.str t] => pure [.bool (tailRead t.toList), .str (String.ofList (cutTail t.toList))]
   | "cast", [.str k, i] => do
     let k ← decodeKind k
     let i ← decodeInput i
